@@ -1,15 +1,16 @@
 #!/bin/sh
-# confirm_seed.sh <ID> <crate> <test-filter...> : in the scratch worktree /tmp/wt/<ID>, confirm that the seeded change
-# compiles, the demonstration fails with it and passes without it, and the crate's existing lib tests behave as before.
-ID=$1; CRATE=$2; shift 2
+# confirm_seed.sh <ID> <cargo test target args, e.g. "-p ant-evm --lib"> -- <test-filter...> : in the scratch worktree /tmp/wt/<ID>,
+# confirm that the seeded change compiles, the demonstration fails with it and passes without it, and the crate's existing
+# tests behave as before.
+ID=$1; TARGET=$2; shift 2; [ "$1" = "--" ] && shift
 W=/tmp/wt/$ID; S=/verif/seeded/$ID
 export CARGO_TARGET_DIR=$W/target CARGO_NET_OFFLINE=true
 cd $W || exit 2
 git checkout -q -- . ; git clean -fdq -e target
 git apply $S/patch.diff && git apply $S/demo.diff || { echo "APPLY FAILED"; exit 2; }
-echo "== with patch: demo"; cargo test --offline -p $CRATE --lib -- "$@" 2>&1 | grep -E "^test result|^test .*(FAILED|ok)$|error(\[|:)" | tail -8
+echo "== with patch: demo"; cargo test --offline $TARGET -- "$@" 2>&1 | grep -E "^test result|^test .*FAILED$|error(\[|:)" | tail -8
 git apply -R $S/patch.diff
-echo "== without patch: demo"; cargo test --offline -p $CRATE --lib -- "$@" 2>&1 | grep -E "^test result|error(\[|:)" | tail -4
+echo "== without patch: demo"; cargo test --offline $TARGET -- "$@" 2>&1 | grep -E "^test result|error(\[|:)" | tail -4
 git apply -R $S/demo.diff; git apply $S/patch.diff
-echo "== with patch only: existing lib tests of $CRATE"; cargo test --offline -p $CRATE --lib 2>&1 | grep -E "^test result|error(\[|:)" | tail -3
+echo "== with patch only: existing tests ($TARGET)"; cargo test --offline $TARGET 2>&1 | grep -E "^test result|error(\[|:)" | tail -3
 git checkout -q -- .
